@@ -85,6 +85,19 @@ func TestPlan(t *testing.T) {
 		p.Shards = append(p.Shards, ev.RangeShards("enum", "^TestCacheEnum$", total, per, env)...)
 		nt := uint64(len(templateCases()))
 		p.Shards = append(p.Shards, ev.RangeShards("templates", "^TestCacheTemplates$", nt, nt/16+1, env)...)
+		if ts, err := exec.LookPath("taskset"); err == nil {
+			// the hasher sizes its worker pool by runtime.NumCPU (the affinity mask): the same histories on
+			// two CPUs and on one, where three dependency files are already "more files than workers"
+			for _, cpus := range []string{"0,1", "0"} {
+				tag := map[string]string{"0,1": "2cpu", "0": "1cpu"}[cpus]
+				hs := ev.RapidShards("hist-"+tag, "^TestCache$", 2, checks, env)
+				tp := ev.RangeShards("templates-"+tag, "^TestCacheTemplates$", nt, nt/2+1, env)
+				for _, sh := range append(hs, tp...) {
+					sh.Wrap = []string{ts, "-c", cpus}
+					p.Shards = append(p.Shards, sh)
+				}
+			}
+		}
 	case "C03":
 		total := graphEnumTotal()
 		p.Shards = append(p.Shards, ev.RangeShards("enum", "^TestGraphEnum$", total, total/32+1, env)...)
